@@ -74,6 +74,34 @@ pub struct CaseResult {
     pub clean: bool,
 }
 
+/// Scripted operations may name "the file opened most recently (and still open)" and "the one before it"
+/// instead of a literal handle: the enumerated histories do not know which handle values the crate hands out.
+pub const LAST_FILE: u32 = 0xFFFF_FF01;
+pub const PREV_FILE: u32 = 0xFFFF_FF02;
+
+fn resolve_placeholders(op: &Op, gs: &GState) -> Op {
+    let r = |h: u32| -> u32 {
+        match h {
+            LAST_FILE => gs.files.last().map(|f| f.handle).unwrap_or(LAST_FILE),
+            PREV_FILE => if gs.files.len() >= 2 { gs.files[gs.files.len() - 2].handle } else { PREV_FILE },
+            other => other,
+        }
+    };
+    match op {
+        Op::Read(f, n) => Op::Read(r(*f), *n),
+        Op::Write(f, b) => Op::Write(r(*f), b.clone()),
+        Op::SeekStart(f, n) => Op::SeekStart(r(*f), *n),
+        Op::SeekCur(f, n) => Op::SeekCur(r(*f), *n),
+        Op::SeekEnd(f, n) => Op::SeekEnd(r(*f), *n),
+        Op::Flush(f) => Op::Flush(r(*f)),
+        Op::CloseFile(f) => Op::CloseFile(r(*f)),
+        Op::Length(f) => Op::Length(r(*f)),
+        Op::Offset(f) => Op::Offset(r(*f)),
+        Op::Eof(f) => Op::Eof(r(*f)),
+        other => other.clone(),
+    }
+}
+
 fn region_of(l: &Layout, idx: u32) -> &'static str {
     if idx < l.lba_start || idx >= l.lba_start + l.total_blocks {
         return "outside";
@@ -252,7 +280,7 @@ pub fn run_case(rng: &mut Rng, sc: &Scenario, cfg: &RunCfg, model: &mut Model, r
         let op = if from_queue {
             pending_quiesce.remove(0)
         } else if let Some(script) = &cfg.script {
-            script[step].clone()
+            resolve_placeholders(&script[step], &gs)
         } else {
             gs.next_op(rng, sc, &cfg.profile)
         };
@@ -865,6 +893,62 @@ fn finish(mut rep: Report, model: &Model, rule: &str) -> Report {
     rep
 }
 
+/// Bounded-exhaustive part of the correspondence: EVERY sequence of `len` operations over a small alphabet
+/// (create / reopen in several modes, short and cluster-crossing writes, seek, read, flush, close, delete,
+/// mkdir, list, on two names in the root of a tiny volume with `free` free clusters) is run on the crate and
+/// on the Lean model, with the byte-array oracle, fsck after every call and the leak / tree oracles at the end.
+fn enumerate_histories(ctx: &Ctx, rep: &mut Report, model: &mut Model, prop: &str, fat32: bool, free: Option<u32>, len: usize, stride: usize, phase: usize) {
+    let mut rng = Rng::new(0xE0E0 + fat32 as u64 * 7 + free.unwrap_or(99) as u64);
+    let o = ScOpts { fat32: Some(fat32), keep_free: free.map(|f| vec![f]), big_tree: false, small_root: false, bpc_choices: vec![1], limits: Some((5, 2, 1)), dirty: true, ..Default::default() };
+    let sc = make_scenario(&mut rng, &o);
+    let cb = (sc.vols[0].layout.bpc * 512) as usize;
+    let (v, d) = (sc.id_offset, sc.id_offset.wrapping_add(1));
+    let big: Vec<u8> = (0..cb + 3).map(|i| (i * 13 + 5) as u8).collect();
+    let alphabet: Vec<Op> = vec![
+        Op::OpenFile(d, "A.TXT".into(), Mode::ReadWriteCreateOrTruncate),
+        Op::OpenFile(d, "A.TXT".into(), Mode::ReadWriteCreateOrAppend),
+        Op::OpenFile(d, "F0.DAT".into(), Mode::ReadWriteAppend),
+        Op::OpenFile(d, "A.TXT".into(), Mode::ReadOnly),
+        Op::Write(LAST_FILE, big.clone()),
+        Op::Write(LAST_FILE, vec![0xA1, 0xA2, 0xA3]),
+        Op::Write(PREV_FILE, vec![0xB1; 600]),
+        Op::SeekStart(LAST_FILE, 1),
+        Op::Read(LAST_FILE, cb + 9),
+        Op::Flush(LAST_FILE),
+        Op::CloseFile(LAST_FILE),
+        Op::Delete(d, "A.TXT".into()),
+        Op::Delete(d, "F0.DAT".into()),
+        Op::Mkdir(d, "A.TXT".into()),
+        Op::List(d),
+    ];
+    let n = alphabet.len();
+    let total = n.pow(len as u32);
+    let mut idx = phase % stride.max(1);
+    let mut ran = 0u64;
+    while idx < total {
+        let mut script = vec![Op::OpenVolume(sc.vols[0].slot), Op::OpenRoot(v)];
+        let mut x = idx;
+        for _ in 0..len {
+            script.push(alphabet[x % n].clone());
+            x /= n;
+        }
+        let mut cfg = RunCfg::base(script.len(), Profile::general());
+        cfg.script = Some(script);
+        cfg.fsck_every_op = true;
+        cfg.leak_at_quiescent = true;
+        cfg.tree_at_quiescent = true;
+        cfg.region_oracle = true;
+        cfg.mirror_every_op = true;
+        let mut r = Rng::new(idx as u64);
+        run_case(&mut r, &sc, &cfg, model, rep, &format!("{prop}/enum/{}/{}/{idx}", if fat32 { 32 } else { 16 }, len));
+        ran += 1;
+        idx += stride.max(1);
+    }
+    rep.count_n("enum:histories", ran);
+    rep.exhaustive_parts.push(format!("{} of the {} operation sequences of length {} over a {}-letter alphabet on a {} volume with {:?} free clusters (stride {})", ran, total, len, n, if fat32 { "FAT32" } else { "FAT16" }, free, stride));
+    let _ = ctx;
+}
+
 pub fn c01(ctx: &Ctx) -> Report {
     let mut rep = Report::new("C01");
     let mut model = Model::spawn(&ctx.model_path);
@@ -878,6 +962,12 @@ pub fn c01(ctx: &Ctx) -> Report {
         run_case(&mut rng, &sc, &cfg, &mut model, &mut rep, &format!("c01/{}/{k}", ctx.seed));
     }
     max_file_size_case(&mut rep, "C01");
+    if ctx.thorough {
+        enumerate_histories(ctx, &mut rep, &mut model, "c01", false, None, 3, 1, 0);
+        enumerate_histories(ctx, &mut rep, &mut model, "c01", true, Some(1), 4, 9, ctx.seed as usize);
+    } else {
+        enumerate_histories(ctx, &mut rep, &mut model, "c01", ctx.seed % 2 == 0, Some(1), 2, 1, 0);
+    }
     finish(rep, &model, "histories of open/seek/read/write/flush/close over up to MAX_FILES files on 1-3 volumes (FAT16 and FAT32, 1-8 blocks per cluster, 1-2 FATs, several partition offsets), lengths and seek targets from {0,1,511,512,513,cluster-1,cluster,cluster+1,multi-cluster,random}; every read/length/offset/eof/seek result is compared with a byte-array model per file and the whole history is replayed on the Lean model; distinct = histories")
 }
 
@@ -916,7 +1006,15 @@ pub fn c03(ctx: &Ctx) -> Report {
         cfg.fsck_every_op = true;
         run_case(&mut rng, &sc, &cfg, &mut model, &mut rep, &format!("c03/{}/{k}", ctx.seed));
     }
-    finish(rep, &model, "histories including failing calls (disk full, name clashes, limit errors, bad handles and names) on volumes with 0,1,2,5 free clusters, small FAT16 roots, FAT32; after every single call the Lean fsck (chains in range / acyclic / terminated / unshared / long enough, unique names, dot entries, nothing after the end marker, with the pending state of open files) runs on the implementation's medium; distinct = histories")
+    if ctx.thorough {
+        enumerate_histories(ctx, &mut rep, &mut model, "c03", false, Some(2), 3, 1, 0);
+        enumerate_histories(ctx, &mut rep, &mut model, "c03", true, None, 3, 1, 0);
+        enumerate_histories(ctx, &mut rep, &mut model, "c03", false, Some(1), 4, 8, ctx.seed as usize);
+    } else {
+        enumerate_histories(ctx, &mut rep, &mut model, "c03", false, None, 2, 1, 0);
+        enumerate_histories(ctx, &mut rep, &mut model, "c03", true, Some(2), 3, 15, ctx.seed as usize);
+    }
+    finish(rep, &model, "bounded-exhaustive: every sequence of 2 (thorough: 3, and every 8th of length 4) operations over a 15-letter alphabet (create / reopen / write short and cluster-crossing / seek / read / flush / close / delete / mkdir / list on two names) on tiny FAT16 and FAT32 volumes; then histories including failing calls (disk full, name clashes, limit errors, bad handles and names) on volumes with 0,1,2,5 free clusters, small FAT16 roots, FAT32; after every single call the Lean fsck (chains in range / acyclic / terminated / unshared / long enough, unique names, dot entries, nothing after the end marker, with the pending state of open files) runs on the implementation's medium; distinct = histories")
 }
 
 pub fn c04(ctx: &Ctx) -> Report {
@@ -929,7 +1027,23 @@ pub fn c04(ctx: &Ctx) -> Report {
         let sc = make_scenario(&mut rng, &o);
         let mut cfg = RunCfg::base(budget(ctx, 50, 70), if k % 2 == 0 { Profile::general() } else { Profile::space() });
         cfg.region_oracle = true;
-        run_case(&mut rng, &sc, &cfg, &mut model, &mut rep, &format!("c04/{}/{k}", ctx.seed));
+        let base = run_case(&mut rng, &sc, &cfg, &mut model, &mut rep, &format!("c04/{}/{k}", ctx.seed));
+        // the same history with a device failure at a few call indices: what is written after a failed call must
+        // still be inside the frame (a block must never be rewritten from a buffer a failed read left behind)
+        if k % 3 == 2 && base.clean {
+            for m in 0..budget(ctx, 6, 20) {
+                let mut cfg2 = cfg.clone();
+                cfg2.script = Some(base.ops.clone());
+                cfg2.compare_reads = true;
+                let i = rng.below(base.ops.len() as u64) as usize;
+                if base.device_calls[i] == 0 {
+                    continue;
+                }
+                cfg2.faults = vec![(i, rng.below(base.device_calls[i]))];
+                let mut r2 = Rng::new(3);
+                run_case(&mut r2, &sc, &cfg2, &mut model, &mut rep, &format!("c04/{}/{k}/fault{m}", ctx.seed));
+            }
+        }
     }
     finish(rep, &model, "every block write of every call in generated histories on single- and multi-partition devices (other partitions hold live volumes), full and nearly full volumes, FATs with slack entries: block index inside the partition and inside FAT / root / data / info regions, never MBR, boot sector, reserved area, other volume or beyond the last cluster; changed bytes within the written data / one directory slot / in-range FAT entries (FAT32 top nibble kept) / info bytes 488..495; distinct = histories")
 }
@@ -948,6 +1062,12 @@ pub fn c05(ctx: &Ctx) -> Report {
         run_case(&mut rng, &sc, &cfg, &mut model, &mut rep, &format!("c05/{}/{k}", ctx.seed));
     }
     max_file_size_case(&mut rep, "C05");
+    if ctx.thorough {
+        enumerate_histories(ctx, &mut rep, &mut model, "c05", false, Some(1), 3, 1, 0);
+        enumerate_histories(ctx, &mut rep, &mut model, "c05", true, Some(2), 4, 5, ctx.seed as usize);
+    } else {
+        enumerate_histories(ctx, &mut rep, &mut model, "c05", ctx.seed % 2 == 1, Some(1), 3, 11, ctx.seed as usize);
+    }
     finish(rep, &model, "histories mixing create, extend, truncate, delete and mkdir on volumes with 0..20 free clusters (driven to exactly full and back), cluster counts with and without FAT slack; at every quiescent point the Lean spec compares the set of clusters marked in use with the union of all chains (no leak, nothing invented), a refused write requires zero free clusters and a cluster-aligned offset, everything written reads back; distinct = histories")
 }
 
@@ -957,7 +1077,7 @@ pub fn c06(ctx: &Ctx) -> Report {
     let mut rng = Rng::new(ctx.seed ^ 0xC06);
     let n = budget(ctx, 50, 1500);
     for k in 0..n {
-        let o = ScOpts { fat32: Some(k % 2 == 0), small_root: k % 4 == 1, full_dir: k % 3 == 0, dirty: k % 3 == 0 && k % 2 == 1, bpc_choices: vec![1, 1, 2, 4], ..Default::default() };
+        let o = ScOpts { fat32: Some(k % 2 == 0), small_root: k % 4 == 1, full_dir: k % 3 == 0, dirty: k % 3 == 0 && k % 2 == 1, stale_info: k % 4 == 2, bpc_choices: vec![1, 1, 2, 4], ..Default::default() };
         let sc = make_scenario(&mut rng, &o);
         let mut cfg = RunCfg::base(budget(ctx, 40, 60), Profile::namespace());
         cfg.profile.w_list = 14;
